@@ -345,6 +345,26 @@ def _leaf_differs(a, b, vocab):
 
 
 
+def if_expansions(t):
+    """texts obtained from t by replacing its (single) `if(c){a}{b}` term by each branch value; None unless t has
+    exactly one such term"""
+    idx = [m.start() for m in re.finditer(r"(?<![A-Za-z0-9_])if\(", t)]
+    if len(idx) != 1:
+        return None
+    i = idx[0]
+    e = _match_close(t, i + 2, "(", ")")
+    if e < 0 or e + 1 >= len(t) or t[e + 1] != "{":
+        return None
+    e2 = _match_close(t, e + 1, "{", "}")
+    if e2 < 0 or e2 + 1 >= len(t) or t[e2 + 1] != "{":
+        return None
+    e3 = _match_close(t, e2 + 1, "{", "}")
+    if e3 < 0:
+        return None
+    a, b = t[e + 2:e2], t[e2 + 2:e3]
+    return [(t[:i] + a + t[e3 + 1:], a), (t[:i] + b + t[e3 + 1:], b)]
+
+
 def phi_expansions(t):
     """texts obtained from t by replacing its (single) `phi(a|b|..)` term by each alternative; None unless t has
     exactly one phi term"""
